@@ -32,7 +32,7 @@ for sid in ids:
                 if vs:
                     fired[c] = ["%s at %s: %s" % (v["instance"], v["at"], v["reason"][:160]) for v in vs[:4]]
     finally:
-        subprocess.run("git -C /repo checkout -- .", shell=True)
+        subprocess.run("git -C /repo checkout -- . && git -C /repo clean -fdq", shell=True)
     meta["detected_by"] = sorted(fired)
     meta["detection_detail"] = fired
     json.dump(meta, open(os.path.join(d, "meta.json"), "w"), indent=1)
